@@ -131,17 +131,37 @@ Definition okb (c : case) : bool :=
   end.
 
 (** * Correspondence: the model reproduces the implementation's outputs *)
+
+(** The first-step matchings are computed once and looked up again while the hunks are
+    assembled ([M_memo table] equals [M_hist] when the table holds [M_hist] results:
+    Proofs/C03.v, [M_memo_correct]). *)
+Definition words_eqb : list bytes -> list bytes -> bool := list_eqb bytes_eqb.
+Definition M_memo (table : list (list bytes * list bytes * list (nat * nat)))
+           (a b : list bytes) : list (nat * nat) :=
+  match find (fun e => words_eqb (fst (fst e)) a && words_eqb (snd (fst e)) b) table with
+  | Some e => snd e
+  | None => M_hist a b
+  end.
+
+(** The reversed-table model is evaluated on cases up to this many input bytes (its
+    independence of the order is proved in general: C03_deterministic). *)
+Definition rev_limit : nat := 3000.
+
 Definition corrb (c : case) : bool :=
   match c with
   | DiffCase inputs cfg ih im same panicked =>
       let s := steps_of cfg in
       negb panicked
-      && list_eqb hunk_eqb (diff_hunks s inputs) (hunks_of ih)
-      && list_eqb hunk_eqb (hunks (run_steps M_hist_rev s inputs)) (hunks_of ih)
       && match first_step_words s inputs with
-         | [] => is_nil im
-         | bw :: ows => list_eqb matching_eqb (map (M_hist bw) ows) (map nat_pairs im)
+         | [] => is_nil im && list_eqb hunk_eqb (diff_hunks s inputs) (hunks_of ih)
+         | bw :: ows =>
+             let ms := map (M_hist bw) ows in
+             let table := map (fun om => (bw, fst om, snd om)) (combine ows ms) in
+             list_eqb matching_eqb ms (map nat_pairs im)
+             && list_eqb hunk_eqb (hunks (run_steps (M_memo table) s inputs)) (hunks_of ih)
          end
+      && (if rev_limit <? length (concat inputs) then true
+          else list_eqb hunk_eqb (hunks (run_steps M_hist_rev s inputs)) (hunks_of ih))
   | MatchCase l r im same panicked =>
       negb panicked
       && matching_eqb (collect_unchanged_words N.eqb (fun h => h) max_occurrences l r) (nat_pairs im)
